@@ -34,6 +34,7 @@ INPUTS = {
     'large': None,          # filled lazily (> 64 KiB formatted)
     'formatted': None,      # f(SMALL)
     'fails': b'int a;\x00int b;\n',
+    'empty_hdr': b'',       # a zero-length source; the configuration inserts a file header, so the run has something to write
     'utf16': b'\xff\xfe' + 'int  a ;\n'.encode('utf-16-le'),
 }
 MODES = {'replace': lambda n: ['--replace', n], 'no_backup': lambda n: ['--no-backup', n], 'f_o_same': lambda n: ['-f', n, '-o', n],
@@ -56,12 +57,21 @@ class _Ref:
         self.ok, self.out, self.status, self.trusted = r.ok and trusted, r.out, r.status, trusted
 
 
-def fmt_ref(data):
+HDR_TEXT = b'/* inserted header */\n'
+HDR_CFG = 'cmt_insert_file_header=hdr.txt\n'
+
+
+def fmt_ref(data, label=None):
     """reference f(original) from an ordinary stdin run.  CFG only changes white space, so a reference that differs from
     the input in anything but ASCII white space is not 'the complete formatted bytes' and is rejected (the path must then
     keep the original)."""
-    k = core.sha(data)
+    k = core.sha(data, label == 'empty_hdr')
     if k not in _REF:
+        if label == 'empty_hdr':
+            # a zero-length source that gets content (an inserted file header): the reference is whatever the header run produces
+            r = run.fmt(data, 'C', CFG + HDR_CFG, files={'hdr.txt': HDR_TEXT})[0]
+            _REF[k] = _Ref(r, True)
+            return _REF[k]
         r = run.fmt(data, 'C', CFG)[0]
         trusted = True
         if r.ok and not data.startswith(b'\xff\xfe'):
@@ -70,9 +80,11 @@ def fmt_ref(data):
     return _REF[k]
 
 
-def setup(d, inp, pre):
+def setup(d, inp, pre, label=None):
     """create the scenario directory; returns the original bytes of the path"""
-    run.write(os.path.join(d, 'c.cfg'), CFG)
+    run.write(os.path.join(d, 'c.cfg'), CFG + (HDR_CFG if label == 'empty_hdr' else ''))
+    if label == 'empty_hdr':
+        run.write(os.path.join(d, 'hdr.txt'), HDR_TEXT)
     p = os.path.join(d, NAME)
     if pre == 'prior':
         run.write(p, PRIOR)
@@ -157,7 +169,7 @@ def plan(case):
     """phase 1: census of one scenario + judgement of the fault-free run; returns (Part dict, [injection tasks])"""
     mode, inp, pre, thorough = case
     data = input_bytes(inp)
-    ref = fmt_ref(data)
+    ref = fmt_ref(data, inp)
     formatted = ref.out if ref.ok else None
     argv = ['-c', 'c.cfg', '-q'] + MODES[mode](NAME)
     part = core.Part()
@@ -165,7 +177,7 @@ def plan(case):
     with run.TempDir() as top:
         d = os.path.join(top, 'census')
         os.makedirs(d)
-        orig = setup(d, data, pre)
+        orig = setup(d, data, pre, inp)
         r0, calls = faults.census(argv, d)
         fails = []
         sigbase = {'kind': 'scenario', 'mode': mode, 'input': inp, 'pre': pre}
@@ -206,14 +218,14 @@ def do_injection(task):
     case, kind, c, fault, b = task
     mode, inp, pre, thorough = case
     data = input_bytes(inp)
-    ref = fmt_ref(data)
+    ref = fmt_ref(data, inp)
     formatted = ref.out if ref.ok else None
     argv = ['-c', 'c.cfg', '-q'] + MODES[mode](NAME)
     part = core.Part()
     fails = []
     sigbase = {'kind': 'scenario', 'mode': mode, 'input': inp, 'pre': pre}
     with run.TempDir() as dd:
-        orig = setup(dd, data, pre)
+        orig = setup(dd, data, pre, inp)
         cls = classify(c)
         if kind == 'single':
             r = faults.inject(argv, dd, c, fault)
@@ -263,7 +275,7 @@ def main(ctx):
     core.replay_regress(ctx, replay)
     thorough = ctx.tier == 'thorough'
     if thorough:
-        modes, inputs, pres = list(MODES), ['small', 'large', 'formatted', 'fails', 'utf16'], ['none', 'prior']
+        modes, inputs, pres = list(MODES), ['small', 'large', 'formatted', 'fails', 'utf16', 'empty_hdr'], ['none', 'prior']
     else:
         modes, inputs, pres = ['replace', 'no_backup', 'f_o_same'], ['small', 'large', 'formatted', 'fails'], ['none', 'prior']
     cs = []
@@ -279,6 +291,7 @@ def main(ctx):
             for i in ('small', 'large'):
                 cs.append((m, i, 'none', thorough))
         cs.append(('f_o_dotslash', 'small', 'none', thorough))
+        cs.append(('replace', 'empty_hdr', 'none', thorough))
     tasks = []
     for res in core.pmap(_plan, cs):
         if isinstance(res, dict):        # worker exception
